@@ -14,6 +14,7 @@ import Frugal.Norm
 import Frugal.BuildCache
 import Frugal.Reference
 import Frugal.Proofs.NormFacts
+import Frugal.Proofs.ClearNocopy2
 open Frugal Frugal.Proto
 
 structure Ctx where
@@ -89,7 +90,6 @@ def subSchema (S : Schema) (r : List Nat) : Schema :=
     other descriptors of `S'` are empty and satisfy every condition trivially) -/
 def sideOn (S' : Schema) (r : List Nat) : Option String :=
   if !(r.all fun j => (S'.get j).ok) then some "schema-not-ok"
-  else if !(r.all fun j => (S'.get j).fields.all fun f => !f.nocopy) then some "nocopy-field"
   else if !(r.all fun j =>
       distinctIdsB (S'.get j).fields &&
       ((S'.get j).fields.all fun f => !f.assigned || match f.dflt with
@@ -171,7 +171,13 @@ def handle (ctx : Ctx) (ln : String) : Option String :=
         | some why => some ("SKIP rt:" ++ why)
         | none =>
           let exp := "ok " ++ toString (appendM ctx.P S' i vv).length ++ " " ++ showVal (normTop S' i vv dv)
-          let got := canonGoDec go
+          -- `nocopy` strings come back as views of the input: their provenance is forgotten here
+          -- (C01.roundtrip_with_nocopy); where the bytes live is checked on the `dec` line (C14)
+          let got := match go with
+            | ["ok", n, v] => match parseValStr v with
+              | some gv => "ok " ++ n ++ " " ++ showVal (erase gv)
+              | none => "unparsable:" ++ v
+            | other => " ".intercalate other
           if exp == got then none
           else some s!"DIFF rt sid={sid} val={v} dest={dest} normal-form=[{exp}] go=[{got}]"
       | _, _ => some s!"BADLINE {ln}"
